@@ -22,8 +22,9 @@
 //!    exact result fits u64 (the functions document rounding, not overflow behaviour).
 //!  * Timestamp grammar (RFC 3339) is exercised through Display/FromStr
 //!    round-trips and chrono-independent boundary strings, not a full recogniser.
-//!  * Hex key/signature/hash types: only `FromStr(Display(v)) == v` and totality
-//!    (no panic) are demanded; their grammar is not documented.
+//!  * Hex key/signature types: exactly 64/66/128 hexadecimal digits (either case) are
+//!    accepted, everything else is rejected without panic; hash types: only
+//!    `FromStr(Display(v)) == v`.
 use crate::util;
 use concordium_contracts_common::{self as cc, schema::SizeLength, *};
 use sha2::{Digest, Sha256};
@@ -846,10 +847,13 @@ fn case_text(sh: &mut Shard, idx: u64, r: &mut Rng) {
     // a failing instant is reported through the boundary witness of its class (year >= 10000, or
     // >= 2^63 where Display casts to i64), so that the signature does not depend on the seed
     let ts_ok = |t: Timestamp| matches!(vmon_core::catch(|| Timestamp::from_str(&t.to_string())), Ok(Ok(t2)) if t2 == t);
-    let ts = if ts_ok(ts) {
+    // only instants outside the documented-good range (year <= 9999, below 2^63) are folded into
+    // the two boundary witnesses; a failing instant inside the range keeps its own signature
+    let ms = ts.timestamp_millis();
+    let ts = if ts_ok(ts) || ms < 253_402_300_800_000 {
         ts
     } else {
-        let pin = Timestamp::from_timestamp_millis(if ts.timestamp_millis() > i64::MAX as u64 { u64::MAX } else { 253_402_300_800_000 });
+        let pin = Timestamp::from_timestamp_millis(if ms > i64::MAX as u64 { u64::MAX } else { 253_402_300_800_000 });
         if ts_ok(pin) {
             ts
         } else {
@@ -973,26 +977,49 @@ fn case_text(sh: &mut Shard, idx: u64, r: &mut Rng) {
         };
         let s = m(r, s0);
         grammar!("ContractAddress", s, rec_contract_address, |s: &str| ContractAddress::from_str(s).ok().map(|c| (c.index, c.subindex)));
-        // hex keys: totality only (FromStr slices the string at byte offsets)
-        let mut s = vmon_core::hex(&r.bytes(32));
-        if mutated {
-            s = mutate_str(r, &s);
-        } else if r.chance(1, 4) {
-            // same byte length, but a two-byte character at an arbitrary (possibly odd) offset
-            let k = r.below(62) as usize;
-            s.replace_range(k..k + 2, "\u{e9}");
-        }
-        sh.evaluations += 1;
-        sh.hit("text.hexkey.total");
-        if vmon_core::catch(|| PublicKeyEd25519::from_str(&s).is_ok()).is_err() {
-            // report through a fixed witness of the same shape (64 bytes, a two-byte character at
-            // an odd offset) so that the signature does not depend on the seed
-            let pin = format!("0\u{e9}{}", "0".repeat(61));
-            let (w, p) = match vmon_core::catch(|| PublicKeyEd25519::from_str(&pin).is_ok()) {
-                Err(p) => (pin, p),
-                Ok(_) => (s.clone(), vmon_core::catch(|| PublicKeyEd25519::from_str(&s).is_ok()).err().unwrap_or_default()),
+        // hex keys and signatures: exactly N hexadecimal digits (either case), nothing else
+        for which in 0..4usize {
+            let nbytes = [32usize, 33, 64, 64][which];
+            let mut s = vmon_core::hex(&r.bytes(nbytes));
+            match r.below(10) {
+                0 => s = s.to_uppercase(),
+                1 => {
+                    // mixed case
+                    s = s.chars().map(|c| if r.chance(1, 2) { c.to_ascii_uppercase() } else { c }).collect();
+                }
+                2 => {
+                    // a sign in front of a digit pair (accepted by u8::from_str_radix)
+                    let k = 2 * r.below(nbytes as u64) as usize;
+                    s.replace_range(k..k + 1, "+");
+                }
+                3 => {
+                    // same byte length, a two-byte character at an arbitrary offset
+                    let k = r.below(2 * nbytes as u64 - 2) as usize;
+                    s.replace_range(k..k + 2, "\u{e9}");
+                }
+                4 => {
+                    let k = r.below(3) as usize + 1;
+                    if r.chance(1, 2) {
+                        s.truncate(s.len() - k);
+                    } else {
+                        s.push_str(&"0".repeat(k));
+                    }
+                }
+                5 => s = mutate_str(r, &s),
+                _ => {}
+            }
+            let want = |s: &str| -> Option<Vec<u8>> {
+                if s.len() != 2 * nbytes || !s.bytes().all(|b| matches!(b, b'0'..=b'9' | b'a'..=b'f' | b'A'..=b'F')) {
+                    return None;
+                }
+                vmon_core::unhex(&s.to_lowercase())
             };
-            viol!("text-panic", format!("text-panic:PublicKeyEd25519:{}", w), format!("PublicKeyEd25519::from_str panicked on {:?}: {}", w, p), json!({"validator": "PublicKeyEd25519", "text": w}));
+            match which {
+                0 => grammar!("PublicKeyEd25519", s, want, |s: &str| PublicKeyEd25519::from_str(s).ok().map(|k| k.0.to_vec())),
+                1 => grammar!("PublicKeyEcdsaSecp256k1", s, want, |s: &str| PublicKeyEcdsaSecp256k1::from_str(s).ok().map(|k| k.0.to_vec())),
+                2 => grammar!("SignatureEd25519", s, want, |s: &str| SignatureEd25519::from_str(s).ok().map(|k| k.0.to_vec())),
+                _ => grammar!("SignatureEcdsaSecp256k1", s, want, |s: &str| SignatureEcdsaSecp256k1::from_str(s).ok().map(|k| k.0.to_vec())),
+            }
         }
     }
     util::nt(sh, vmon_core::mix(&[3, r.next()]));
